@@ -389,10 +389,15 @@ VARIANTS = {
            "ZernikeNoll()")),
         M('fit-not-stored', (ZK, '        self.zernike.coeffs = coeffs\n',
                              '        pass\n')),
-        M('fit-rcond', (ZK, 'np.ravel(self.z), rcond=None)',
-                        'np.ravel(self.z), rcond=1e-3)')),
-        M('fit-wrong-rhs', (ZK, 'np.linalg.lstsq(A, np.ravel(self.z), rcond=None)',
-                            'np.linalg.lstsq(A, np.ravel(self.radius), rcond=None)')),
+        M('fit-rcond', (ZK, 'np.linalg.lstsq(A[valid], z[valid], rcond=None)',
+                        'np.linalg.lstsq(A[valid], z[valid], rcond=1e-3)')),
+        M('fit-wrong-rhs', (ZK, '        z = np.ravel(self.z)\n',
+                            '        z = np.ravel(self.radius)\n')),
+        M('fit-nan-rows-kept',
+          (ZK, 'np.linalg.lstsq(A[valid], z[valid], rcond=None)',
+           'np.linalg.lstsq(A, z, rcond=None)')),
+        M('fit-inputs-as-given',
+          (ZK, 'self.x = np.asarray(x, dtype=float)', 'self.x = x')),
         M('fit-terms-swapped',
           (ZK, 'self.zernike.terms(np.ravel(self.radius), np.ravel(self.phi))',
            'self.zernike.terms(np.ravel(self.phi), np.ravel(self.radius))')),
@@ -402,15 +407,15 @@ VARIANTS = {
           (ZK, 'self.zernike.coeffs = np.ones(self.num_terms)',
            'self.zernike.coeffs = np.ones(self.num_terms - 1)')),
         M('fit-back-to-iterative',
-          (ZK, '        coeffs, _, _, _ = np.linalg.lstsq(A, np.ravel(self.z), '
+          (ZK, '        coeffs, _, _, _ = np.linalg.lstsq(A[valid], z[valid], '
                'rcond=None)\n',
            '        from scipy.optimize import least_squares\n'
            '        coeffs = least_squares(self._objective, '
            'np.zeros(self.num_terms)).x\n')),
         T('fit-T-index-form',
-          (ZK, '        coeffs, _, _, _ = np.linalg.lstsq(A, np.ravel(self.z), '
+          (ZK, '        coeffs, _, _, _ = np.linalg.lstsq(A[valid], z[valid], '
                'rcond=None)\n',
-           '        coeffs = np.linalg.lstsq(A, self.z.ravel(), '
+           '        coeffs = np.linalg.lstsq(A[valid], z[valid], '
            'rcond=None)[0]\n')),
         M('term-coefficient-squared',
           (ZK, 'return (coeff *\n                self._norm_constant(n, m) *',
@@ -436,8 +441,8 @@ VARIANTS = {
           (PSF, 'return self.psf[self.grid_size//2, self.grid_size//2] / 100',
            'return self.psf[0, 0] / 100')),
         M('pupil-phase-no-2pi',
-          (PSF, 'np.exp(1j * 2 * np.pi * self.data[0][k][0])',
-           'np.exp(1j * np.pi * self.data[0][k][0])')),
+          (PSF, 'np.exp(1j * 2 * np.pi * phase)',
+           'np.exp(1j * np.pi * phase)')),
         M('mtf-slice-from-zero',
           (MTF, 'tangential = data[self.grid_size//2:, self.grid_size//2]',
            'tangential = data[:self.grid_size//2, self.grid_size//2]')),
